@@ -423,7 +423,12 @@ func (e *Engine) VerifyFunc(key string, oblTimeoutMs int) *FuncResult {
 		fx2 := &FuncCtx{eng: e, pkg: pi.pkg, info: pi.pkg.TypesInfo, decl: fd, con: con, cur: pi,
 			qname: key, short: e.shortPkg(con.Pkg) + "." + fname,
 			declSet: map[string]bool{}, freshN: map[string]int{}, oblNames: map[string]int{}, cfg: e.tags,
-			real: true}
+			real: true, keepOnly: map[string]bool{}}
+		for _, ks := range fx.kept {
+			for _, k := range ks {
+				fx2.keepOnly[k] = true
+			}
+		}
 		func() {
 			defer func() {
 				if r := recover(); r != nil {
@@ -451,12 +456,18 @@ func (e *Engine) VerifyFunc(key string, oblTimeoutMs int) *FuncResult {
 
 func hasRealClauses(con *Contract) bool {
 	for _, e := range con.Ensures {
-		if e.Tag == "real" {
+		if e.Tag == "real" || (e.Tag == "realx" && thoroughTier) {
 			return true
 		}
 	}
 	return false
 }
+
+// thoroughTier enables the clauses tagged [realx] (exact-arithmetic clauses whose proof is too
+// slow for the quick tier; they are decided in the thorough tier only).
+var thoroughTier bool
+
+func isRealTag(t string) bool { return t == "real" || t == "realx" }
 
 func dischargeAll(obls []*Obl, timeoutMs int) {
 	var wg sync.WaitGroup
@@ -644,7 +655,7 @@ func (fx *FuncCtx) run() {
 					continue
 				}
 				kind := "post"
-				if en.Tag == "real" {
+				if isRealTag(en.Tag) {
 					kind = "post.real"
 				}
 				fx.obligeSplit(ex.st, kind, fx.specBool(penv, en.Expr), ex.node, "ensures "+en.Src)
